@@ -24,8 +24,12 @@
 //!   DD    = deduplicate_explicit_ref_inputs_with_regular_inputs of the builder configuration (absent = 0; always generated).
 //!   U     = the UTxO table.  UTxO id i is outpoint (hash(i), i mod 7).  kind:
 //!           0 key address (enterprise or base by (id/2) mod 2), payment key kh(id mod 12)
-//!           1 Byron / Icarus address of bip32 key (id mod 3)
-//!           2 native script: (id/2) even -> ScriptPubkey kh(id mod 12); odd -> ScriptAll [kh(id mod 12), kh((id+1) mod 12)]
+//!           1 Byron / Icarus address of bip32 key (id mod 3); protocol magic mainnet (no attributes) when (id/3) even,
+//!             testnet 1097911063 (the address and its bootstrap witness carry the network-magic attribute) when odd:
+//!             six distinct addresses, number id mod 6
+//!           2 native script: (id/2) even -> ScriptPubkey kh(id mod 12); odd -> ScriptAll [kh(id mod 12), kh((id+1) mod 12)];
+//!             but for (id/4) mod 3 = 2 the SHARED script ScriptAny [kh(g), kh(g+1)], g = id mod 3, whose source DECLARES its
+//!             signer (set_required_signers): [kh(g)] when (id/12) even, [kh(g+1)] when odd -- that declared key signs
 //!           3 Plutus V2 script in the witness set, INLINE datum on the UTxO (PlutusWitness::new_without_datum)
 //!           4 Plutus V2 script in the witness set, WITNESS datum (PlutusWitness::new; datum = bytes of length 1 + id mod 40)
 //!           5 Plutus V2 script BY REFERENCE, inline datum (new_with_ref_without_datum)
@@ -143,7 +147,12 @@ fn kh(k: u64) -> Ed25519KeyHash {
 fn key_cred(k: u64) -> Credential { Credential::from_keyhash(&kh(k)) }
 fn entropy_from(a: u64) -> Vec<u8> { Rng::new(0xB1_0000 ^ a).bytes(32) }
 fn byron_key(a: u64) -> Bip32PrivateKey { BYRON_KEYS.with(|t| Bip32PrivateKey::from_bytes(&t[(a % 3) as usize]).unwrap()) }
-fn byron_addr(a: u64) -> ByronAddress { ByronAddress::icarus_from_key(&byron_key(a).to_public(), NetworkInfo::mainnet().protocol_magic()) }
+/// Byron address number a (0..5): key a mod 3; mainnet magic (no attributes) for a < 3, a testnet magic (network-magic attribute) else
+const TESTNET_MAGIC: u32 = 1097911063;
+fn byron_addr(a: u64) -> ByronAddress {
+    let magic = if (a % 6) < 3 { NetworkInfo::mainnet().protocol_magic() } else { TESTNET_MAGIC };
+    ByronAddress::icarus_from_key(&byron_key(a).to_public(), magic)
+}
 
 /// the six minting policies: native scripts (one signature each, a real key); policy id = script hash
 fn policy_script(i: u64) -> NativeScript { NativeScript::new_script_pubkey(&ScriptPubkey::new(&kh(1000 + i))) }
@@ -213,19 +222,39 @@ fn utxo_address(id: u64, kind: u32) -> Option<Address> {
     match kind {
         0 => Some(if (id / 2) % 2 == 0 { EnterpriseAddress::new(1, &key_cred(utxo_key(id))).to_address() }
                   else { BaseAddress::new(1, &key_cred(utxo_key(id)), &key_cred((id + 5) % POOL)).to_address() }),
-        1 => Some(byron_addr(id % 3).to_address()),
+        1 => Some(byron_addr(id % 6).to_address()),
         _ => None,
     }
 }
-fn utxo_native_keys(id: u64) -> Vec<u64> { if (id / 2) % 2 == 0 { vec![utxo_key(id)] } else { vec![utxo_key(id), (utxo_key(id) + 1) % POOL] } }
+/// kind 2 with a script shared between ids (ScriptAny of two keys) and a declared signer
+fn native_shared(id: u64) -> bool { (id / 4) % 3 == 2 }
+/// the keys that sign for a kind-2 input: all keys of its own script, or the one its source declares
+fn utxo_native_keys(id: u64) -> Vec<u64> {
+    if native_shared(id) { vec![id % 3 + (id / 12) % 2] }
+    else if (id / 2) % 2 == 0 { vec![utxo_key(id)] } else { vec![utxo_key(id), (utxo_key(id) + 1) % POOL] }
+}
 fn pubkey_script(k: u64) -> NativeScript { NativeScript::new_script_pubkey(&ScriptPubkey::new(&kh(k))) }
 fn utxo_native_script(id: u64) -> NativeScript {
+    if native_shared(id) {
+        let mut any = NativeScripts::new();
+        for k in [id % 3, id % 3 + 1] { any.add(&pubkey_script(k)); }
+        return NativeScript::new_script_any(&ScriptAny::new(&any));
+    }
     let ks = utxo_native_keys(id);
     if ks.len() == 1 { pubkey_script(ks[0]) } else {
         let mut all = NativeScripts::new();
         for k in &ks { all.add(&pubkey_script(*k)); }
         NativeScript::new_script_all(&ScriptAll::new(&all))
     }
+}
+fn utxo_native_source(id: u64) -> NativeScriptSource {
+    let mut src = NativeScriptSource::new(&utxo_native_script(id));
+    if native_shared(id) {
+        let mut ks = Ed25519KeyHashes::new();
+        for k in utxo_native_keys(id) { ks.add(&kh(k)); }
+        src.set_required_signers(&ks);
+    }
+    src
 }
 fn plutus_script(id: u64) -> PlutusScript {
     let mut bytes = vec![0x4du8, 0x01, 0x00, 0x00];
@@ -644,16 +673,16 @@ fn run_op(w: &mut World, op: &Op, last_tx: &mut Option<Transaction>) -> OpRec {
                             let tu = TransactionUnspentOutput::new(&input, &utxo_output(&u)?);
                             match u.kind {
                                 0 | 1 => ib.add_regular_utxo(&tu),
-                                2 => ib.add_native_script_utxo(&tu, &NativeScriptSource::new(&utxo_native_script(u.id))),
+                                2 => ib.add_native_script_utxo(&tu, &utxo_native_source(u.id)),
                                 _ => ib.add_plutus_script_utxo(&tu, &plutus_witness(&u)),
                             }
                         } else {
                             match u.kind {
                                 0 => { if u.id % 4 == 0 { ib.add_key_input(&kh(utxo_key(u.id)), &input, &value); Ok(()) }
                                        else { ib.add_regular_input(&utxo_address(u.id, 0).unwrap(), &input, &value) } }
-                                1 => { if u.id % 4 == 0 { ib.add_bootstrap_input(&byron_addr(u.id % 3), &input, &value); Ok(()) }
-                                       else { ib.add_regular_input(&byron_addr(u.id % 3).to_address(), &input, &value) } }
-                                2 => { ib.add_native_script_input(&NativeScriptSource::new(&utxo_native_script(u.id)), &input, &value); Ok(()) }
+                                1 => { if u.id % 4 == 0 { ib.add_bootstrap_input(&byron_addr(u.id % 6), &input, &value); Ok(()) }
+                                       else { ib.add_regular_input(&byron_addr(u.id % 6).to_address(), &input, &value) } }
+                                2 => { ib.add_native_script_input(&utxo_native_source(u.id), &input, &value); Ok(()) }
                                 3..=6 => { ib.add_plutus_script_input(&plutus_witness(&u), &input, &value); Ok(()) }
                                 _ => Err(JsError::from_str("unknown utxo kind")),
                             }
@@ -836,7 +865,7 @@ fn signed_figures(w: &World, tx: &Transaction) -> String {
         let u = w.utxos.get(&id).expect("input of the body is a UTxO of the scenario");
         match u.kind {
             0 => { keys.insert(utxo_key(id)); }
-            1 => { boots.insert(id % 3); }
+            1 => { boots.insert(id % 6); }
             2 => { keys.extend(utxo_native_keys(id)); }
             _ => {}
         }
@@ -1091,19 +1120,41 @@ fn gen_xr(r: &mut Rng, cfg: &mut Cfg, utxos: &mut Vec<U>, pre: &mut Vec<Op>, all
 /// required signers, reference inputs, extra datums, metadata, ttl.  Ops are appended to `pre` (which the caller shuffles).
 fn decorate(r: &mut Rng, cfg: &mut Cfg, utxos: &mut Vec<U>, pre: &mut Vec<Op>, full: bool, plutus_wd: bool) {
     if full && r.chance(1, 6) {
-        let n = if r.chance(1, 3) { 2 } else { 1 };
-        let base = 210 + r.below(6);
-        for j in 0..n {
-            let id = base + j * (1 + r.below(2)) * 7;
+        // one Byron input, or two or three with addresses of both kinds (with and without the network-magic attribute)
+        let n = if r.chance(1, 2) { r.range(2, 3) } else { 1 };
+        let mut ids: Vec<u64> = vec![210 + r.below(30)];
+        while (ids.len() as u64) < n {
+            let id = 210 + r.below(30);
+            if ids.contains(&id) || (ids.len() == 1 && (id / 3) % 2 == (ids[0] / 3) % 2) { continue; }
+            ids.push(id);
+        }
+        for id in ids {
             let refsize = if r.chance(1, 3) { gen_own_ref(r) } else { 0 };
             utxos.push(U { id, kind: 1, mem: 0, steps: 0, refsize, val: Val::ada(r.range(2_000_000, 9_000_000)) }); pre.push(Op::In(id));
         }
     }
     if full && r.chance(1, 6) {
-        let n = if r.chance(1, 4) { 2 } else { 1 };
-        let base = 300 + r.below(24);
-        for j in 0..n {
-            let id = base + j * 25;
+        let ids: Vec<u64> = if r.chance(1, 3) {
+            // two inputs locked by the same script whose sources declare different signers; the two keys are, when
+            // possible, keys that nothing else of the scenario so far needs
+            let mut used: BTreeSet<u64> = utxos.iter().flat_map(|u| match u.kind { 0 => vec![utxo_key(u.id)], 2 => utxo_native_keys(u.id), _ => vec![] }).collect();
+            for o in pre.iter() {
+                match o {
+                    Op::X(t, k) if t == "sig" => { used.insert(*k); }
+                    Op::Wd(Some(ws)) => for (a, _) in ws { used.insert(match *a { 21..=31 => *a - 20, 41..=51 => 99, _ => *a % POOL }); },
+                    Op::Certs(Some(cs)) => for i in 0..cs.len() as u64 { used.insert(cert_key(i)); },
+                    _ => {}
+                }
+            }
+            let free: Vec<u64> = (0..3u64).filter(|g| !used.contains(g) && !used.contains(&(g + 1))).collect();
+            let g = if free.is_empty() { r.below(3) } else { *r.pick(&free) };
+            let j = match g { 0 => 1, 1 => 2, _ => *r.pick(&[0u64, 3]) };
+            vec![12 * *r.pick(&[30u64, 32]) + 8 + j, 12 * 31 + 8 + j]
+        } else {
+            let base = 300 + r.below(24);
+            if r.chance(1, 4) { vec![base, base + 25] } else { vec![base] }
+        };
+        for id in ids {
             let refsize = if r.chance(1, 4) { gen_own_ref(r) } else { 0 };
             utxos.push(U { id, kind: 2, mem: 0, steps: 0, refsize, val: Val::ada(r.range(2_000_000, 9_000_000)) }); pre.push(Op::In(id));
         }
